@@ -34,6 +34,8 @@ class P(Prop):
         ("TracklibVerif.Props.C19", "TV.C19.aggregates_entry", "computeAggregates writes, in (line i, column j), the operator's value on that cell with NaN replaced by the no-data value"),
         ("TracklibVerif.Props.C19", "TV.C19.session_geometry", "no call on a raster (addAFMap, addCollectionToRaster, computeAggregates, setNoDataValue; failing calls included) changes the grid geometry; one outcome per call"),
         ("TracklibVerif.Props.C19", "TV.C19.add_collection_spec", "addCollectionToRaster REPLACES the values: on a raster in any state, for a collection inside the extent whose tracks have every feature of the bands, it does not raise, leaves bands / geometry / no-data untouched, keeps values for exactly the features of the bands, and cell (i,j) of a feature holds exactly that feature's values of the observations of THIS collection whose getCell is (j,i)"),
+        ("TracklibVerif.Props.C19", "TV.C19.add_collection_conservation", "conservation on a raster with a history: after addCollectionToRaster the cell sizes of every feature add up to the number of observations of THIS collection, and any per-value weight (non-NaN: the co_count total) is conserved"),
+        ("TracklibVerif.Props.C19", "TV.C19.add_collection_outside", "an observation outside the extent (every track having every feature, at least one band): addCollectionToRaster raises TypeError, bands and geometry untouched"),
         ("TracklibVerif.Props.C19", "TV.C19.obs_cover", "the observations scattered for a feature a track has are all its positions, in order"),
         ("TracklibVerif.Props.C19", "TV.C19.add_collection_missing_feature", "a track lacking a feature of the bands: AnalyticalFeatureError, and every cell of every feature is left empty (the earlier collection's values are gone)"),
         ("TracklibVerif.Props.C19", "TV.C19.session_spec", "invariant over call sequences: after ANY calls, then a well-formed addCollectionToRaster(T), then any calls other than addCollectionToRaster (bands added later, ...), then computeAggregates with every band <feature>#<operator>: neither raises, and EVERY band, whatever it held before, holds its operator over exactly the values of the observations of T located in each cell (NaN -> NO_DATA_VALUE)"),
@@ -42,7 +44,8 @@ class P(Prop):
     ]
     partial = []
     open_statements = ["IEEE rounding in (x-xmin)/rx, margins and sums is outside the theorems (floor-ring statement); sampled by the transfer check on float streams",
-                       "what a failing addCollectionToRaster / computeAggregates leaves behind is modelled and compared (driver), not stated as a theorem",
+                       "the values a TypeError-failing addCollectionToRaster leaves behind and the bands a failing computeAggregates has already rewritten are modelled and compared "
+                       "(driver), not stated as theorems (the exceptions themselves are: add_collection_missing_feature, add_collection_outside)",
                        "the raster's own no-data value (Raster(novalue=...), setNoDataValue) is carried by the model; computeAggregates writes the module constant NO_DATA_VALUE "
                        "whatever it is (finding custom-novalue-ignored, findings/C19.json): the theorems say NaN -> the written constant"]
     modelled = ("core/raster.py: Raster.__init__ (margin, ncol/nrow = max(1, ceil(..))), getCell, and the Raster object as a state machine (Model/RasterSession.lean): "
